@@ -197,6 +197,13 @@ def Schema.content (S : Schema) (n : String) : Group :=
   | some (.complex _ _ g) => g
   | _ => .empty
 
+/-- the element particles of a group whose items are all elements -/
+def elemsOf : Group → List ElemP
+  | .seq items _ _ => items.filterMap (fun | .elem e => some e | _ => none)
+  | .choice items _ _ => items.filterMap (fun | .elem e => some e | _ => none)
+  | .all es => es
+  | .empty => []
+
 /-! ## Content-model matching (greedy, deterministic — XSD content models obey "unique particle attribution") -/
 
 /-- result of matching a prefix: the type names assigned to the consumed children, and the remaining names -/
